@@ -118,7 +118,7 @@ PROPS = {
         "rule": "cases = every caller-controlled count/length site at field maximum, maximum+1 and far beyond, in both cargo profiles: "
                 "package elements 254..65536 (Package and PackageBuilder, also nested), method arguments 6..255, Arg/Local indices, "
                 "name segments 254..1000, address ranges (all three widths: full range, min>max, random), field-entry lengths around "
-                "2^28 and near usize::MAX, PkgLength through the hook around 2^28, thorough: real 2^28-byte bodies; plus the table sites "
+                "2^28 and near usize::MAX, PkgLength through the hook around 2^28, thorough: real bodies around 2^20 and 2^22; plus the table sites "
                 "(PPTT, CXIMS, HMAT, RIMT, RHCT, VIOT, SLIT, RQSC); the Spec says which inputs are oversize, those must be refused; "
                 "distinct = distinct case text",
         "exhaustive": {"quick": False, "thorough": False},
